@@ -40,7 +40,8 @@ type zzPerioWorld struct {
 
 func zzMkPerio() *zzPerioWorld {
 	w := &zzPerioWorld{h: &zzHandler{}}
-	w.s = ZZNewServer()
+	// the real constructor (it also starts the Serve goroutine), then Handle - the order Gtp5g uses
+	w.s, _ = OpenServer(&w.wg)
 	w.s.Handle(w.h, func(q map[uint64][]uint32) (map[uint64][]report.USAReport, error) {
 		cp := make(map[uint64][]uint32)
 		out := make(map[uint64][]report.USAReport)
@@ -53,8 +54,6 @@ func zzMkPerio() *zzPerioWorld {
 		w.queries = append(w.queries, cp)
 		return out, nil
 	})
-	w.wg.Add(1)
-	go w.s.Serve(&w.wg)
 	zzYield()
 	return w
 }
